@@ -351,9 +351,9 @@ def check_bfs(depth, res):
 
 def _decode_any(fmt, text):
     if fmt == 'export':
-        return [(m.toks, model.canon_mt(m.root)) for m in codecs.decode_export(text)]
+        return [(m.sid, m.toks, model.canon_mt(m.root)) for m in codecs.decode_export(text)]
     if fmt == 'tigerxml':
-        return [(m.toks, model.canon_mt(m.root)) for m in codecs.decode_tigerxml(text)]
+        return [(m.sid, m.toks, model.canon_mt(m.root)) for m in codecs.decode_tigerxml(text)]
     if fmt == 'brackets':
         return [(t, r) for r, t in codecs.decode_brackets(text)]
     if fmt == 'lines':
@@ -395,6 +395,7 @@ def _api_interleaved_readers(src, dest):
             treeoutput.export(t, f, boyd_split_numbering=True)
 
 
+EMPTY_SENTENCE_OP = 2        # plain export -> export conversion also gets a sentence without tokens
 CONCAT_OPS = [
     ('export', _api_list_then_transform, 'export', 'dest'),
     ('export', _api_interleaved_readers, 'export', 'dest'),
@@ -415,7 +416,7 @@ CONCAT_OPS = [
 def concat_pool():
     shs = [(1, 2), ((1, 3), 2), ((1, 2), (3, 4)), (((1, 4), 2), 3), ((1,), 2, 3), ((1, 3, 5), 2, 4)]
     cont = [(1, 2), ((1, 2), 3), (1, (2, 3)), ((1,), 2, 3), ((1, 2), (3, 4)), (1, 2, 3)]
-    return ([[_mt(sh, 1, i)] for i, sh in enumerate(shs)] + [[_mt(shs[0], 1, 1), _mt(shs[3], 2, 2)]],
+    return ([[_mt(sh, 1, i)] for i, sh in enumerate(shs)] + [[_mt(shs[0], 1, 1), _mt(shs[3], 2, 2)], [None]],
             [[_mt(sh, 1, i)] for i, sh in enumerate(cont)] + [[_mt(cont[1], 1, 1), _mt(cont[4], 2, 2)]])
 
 
@@ -424,7 +425,12 @@ def _run_concat(cli, wd, fmt, argv, mts, out_name):
     os.makedirs(d)
     src = os.path.join(d, 'src')
     with open(src, 'w', encoding='utf-8') as f:
-        f.write(codecs.encode_export(mts) if fmt == 'export' else codecs.encode_brackets(mts))
+        if fmt == 'export':
+            # ('EMPTY', sid) stands for a sentence without any token: '#BOS k / #EOS k'
+            f.write(''.join('#BOS %d\n#EOS %d\n' % (m[1], m[1]) if isinstance(m, tuple) else codecs.encode_export([m])
+                            for m in mts))
+        else:
+            f.write(codecs.encode_brackets(mts))
     dest = os.path.join(d, 'dest')
     if callable(argv):
         argv(src, dest)
@@ -471,9 +477,11 @@ def check_concat(op_i, ia, ib):
     fmt, argv, kind, out_name = CONCAT_OPS[op_i]
     disc_pool, cont_pool = concat_pool()
     P = disc_pool if fmt == 'export' else cont_pool
-    A = [model.MT(k + 1, m.toks, m.root) for k, m in enumerate(P[ia])]
-    B = [model.MT(len(A) + k + 1, m.toks, m.root) for k, m in enumerate(P[ib])]
+    A = [('EMPTY', k + 1) if m is None else model.MT(k + 1, m.toks, m.root) for k, m in enumerate(P[ia])]
+    B = [('EMPTY', len(A) + k + 1) if m is None else model.MT(len(A) + k + 1, m.toks, m.root) for k, m in enumerate(P[ib])]
     Bsolo = B if fmt == 'export' else [model.MT(k + 1, m.toks, m.root) for k, m in enumerate(P[ib])]
+    if any(isinstance(m, tuple) for m in A + B) and op_i != EMPTY_SENTENCE_OP:
+        return []
     wd = os.path.join(scratch(), 'c18c')
     os.makedirs(wd, exist_ok=True)
     case = {'concat': op_i, 'a': ia, 'b': ib}
@@ -494,7 +502,8 @@ def check_concat(op_i, ia, ib):
     if not ok:
         return [{'kind': 'not-sentence-local', 'where': _opname(argv), 'case': case,
                  'detail': 'result for A+B differs from result(A) (+) result(B): A=%s B=%s; A+B gives %r, parts give %r and %r'
-                           % ([model.mt_str(m.root) for m in A], [model.mt_str(m.root) for m in B],
+                           % (['<empty sentence>' if isinstance(m, tuple) else model.mt_str(m.root) for m in A],
+                              ['<empty sentence>' if isinstance(m, tuple) else model.mt_str(m.root) for m in B],
                               _short(rab), _short(ra), _short(rb)),
                  'what': 'processing the concatenation of two treebanks differs from processing them separately'}]
     return []
